@@ -72,27 +72,14 @@ const (
 )
 
 func c36IsOpen(id string) bool {
-	// development aid only (patch workflow step 3c): C36_ASSUME_FIXED=id1,id2 treats findings as fixed
+	// patch workflow step 3c: C36_ASSUME_FIXED=id1,id2 treats listed-open findings as fixed (this can only make
+	// the check stricter: the shapes are generated and the pinned cases must round-trip)
 	for _, x := range strings.Split(os.Getenv("C36_ASSUME_FIXED"), ",") {
 		if x == id {
 			return false
 		}
 	}
-	if vh.OpenFinding("C36", id) {
-		return true
-	}
-	// development aid only: C36_ASSUME_OPEN=id1,id2 (or "all") before the coordinator lists the findings
-	if s := os.Getenv("C36_ASSUME_OPEN"); s != "" {
-		if s == "all" {
-			return true
-		}
-		for _, x := range strings.Split(s, ",") {
-			if x == id {
-				return true
-			}
-		}
-	}
-	return false
+	return vh.OpenFinding("C36", id)
 }
 
 func c36NewGate() *c36Gate {
@@ -373,9 +360,6 @@ func (e *c36Env) rawRoundTrip(build, fp string, names []string, v c36Variant, ke
 		}
 		return "", "build rejected: " + se, nil
 	}
-	if os.Getenv("C36_GENONLY") != "" { // development aid: only check that the build scripts are accepted
-		return "", "", nil
-	}
 	srcOut, se, err := e.run(src, []byte(fp), "sql", "-r", "csv")
 	if err != nil {
 		if err == errC36Timeout {
@@ -489,10 +473,6 @@ func TestVerif_C36(t *testing.T) {
 			rt.Skip("build rejected")
 		}
 		rec.Case(desc, nontrivial, cl...)
-		if viol != "" && os.Getenv("C36_SURVEY") != "" {
-			fmt.Printf("SURVEY-VIOLATION dump[%s]: %s\n--- build script ---\n%s\n--- end ---\n", v, viol, c36Clip(build))
-			return
-		}
 		if viol != "" {
 			rt.Fatalf("C36 violated: dump[%s] and re-import do not reproduce the database.\n%s\n--- build script ---\n%s", v, viol, build)
 		}
@@ -630,10 +610,6 @@ func TestVerif_C36_formats(t *testing.T) {
 		}
 		rec.Case(desc, nontrivial, cl...)
 		rec.Class("format_restricted_draws", gate.restricted)
-		if viol != "" && os.Getenv("C36_SURVEY") != "" {
-			fmt.Printf("SURVEY-VIOLATION format[%s]: %s\n--- build script ---\n%s\n--- end ---\n", format, viol, c36Clip(build))
-			return
-		}
 		if viol != "" {
 			rt.Fatalf("C36 violated: dump -r %s and table import do not reproduce the rows.\n%s\n--- build script ---\n%s", format, viol, build)
 		}
